@@ -1,6 +1,5 @@
 /-
-C06: concrete instances used by the non-vacuity examples and by the witness of the open
-mixed-dtype defect in `Props/C06.lean` (ℚ with `cj = id`).
+C06: concrete instances used by the non-vacuity examples in `Props/C06.lean` (ℚ with `cj = id`).
 -/
 import PymotoVerif.Lemmas.LDASInv
 import Mathlib.LinearAlgebra.Matrix.Notation
@@ -9,43 +8,21 @@ namespace PymotoVerif.C06
 open PymotoVerif.LDAS Matrix
 
 /-- the configuration the driver uses at `ℚ` -/
-def cfgQ (strict : Bool) : Cfg ℚ :=
+def cfgQ : Cfg ℚ :=
   { cj := id, re := id, im := fun _ => 0, lt := fun a b => decide (a < b), tol2 := 1 / 10 ^ 14,
-    eps2 := 1 / 10 ^ 20, strictCast := strict }
+    eps2 := 1 / 10 ^ 20 }
 
-theorem laws_cfgQ (strict : Bool) : Laws (cfgQ strict) :=
+theorem laws_cfgQ : Laws cfgQ :=
   { cj_add := fun _ _ => rfl, cj_mul := fun _ _ => rfl, cj_cj := fun _ => rfl, re_add := fun _ _ => rfl,
     re_mul := fun _ _ _ => rfl, cj_real := fun _ _ => rfl }
 
 /-- exact 2×2 inner solver (Cramer), `adj` selects the conjugate transpose (= transpose at ℚ) -/
 def inner2 (A : Mat 2 ℚ) (adj : Bool) (b : Vec 2 ℚ) (_ : Option (Vec 2 ℚ)) : Vec 2 ℚ :=
-  let M : Mat 2 ℚ := if adj then adjM (cfgQ false) A else A
+  let M : Mat 2 ℚ := if adj then adjM cfgQ A else A
   let det := M 0 0 * M 1 1 - M 0 1 * M 1 0
   ![(M 1 1 * b 0 - M 0 1 * b 1) / det, (M 0 0 * b 1 - M 1 0 * b 0) / det]
 
 def A2 : Mat 2 ℚ := !![1, 1; 0, 1]
 
-
-/-- a coupled 2×2 matrix for the defect witness -/
-def A3 : Mat 2 ℚ := !![2, 1; 1, 3]
-
-def isOk {ε β : Type} : Except ε β → Bool
-  | .ok _ => true
-  | .error _ => false
-
-/-- fresh wrapper, `update(A3)` -/
-def s0 (c : Cfg ℚ) : State 2 ℚ := update c (init none none) A3 false
-
-/-- `solve([1,0].astype(complex))` on the fresh wrapper -/
-def firstOk (c : Cfg ℚ) : Bool := isOk (solve c inner2 (s0 c) (fun _ : Fin 1 => ![1, 0]) true none .N)
-
-/-- … followed by `solve([0,1])` (real) on the same wrapper -/
-def secondOk (c : Cfg ℚ) : Bool :=
-  match solve c inner2 (s0 c) (fun _ : Fin 1 => ![1, 0]) true none .N with
-  | .ok (s1, _) => isOk (solve c inner2 s1 (fun _ : Fin 1 => ![0, 1]) false none .N)
-  | .error _ => false
-
-/-- `solve([0,1])` on a fresh wrapper -/
-def freshOk (c : Cfg ℚ) : Bool := isOk (solve c inner2 (s0 c) (fun _ : Fin 1 => ![0, 1]) false none .N)
 
 end PymotoVerif.C06
